@@ -242,6 +242,64 @@ theorem project_xz_changes_beyond_90 (epsSq c0 s0 x z c s : K)
 
 end ordered
 
+/-! ### every heading `θ ∈ (−π, π]`, over ℝ, with `atan2 = Complex.arg` -/
+section real
+open Real
+
+/-- **XY, all headings**: the planar pose with heading `θ` is unchanged, and the heading read
+back by `atan2` from the certified direction is `θ` itself -/
+theorem project_xy_fixes_planar_real (epsSq θ x y c s : ℝ) (heps : epsSq < 1)
+    (h : (dirOf epsSq .xy (rotAbout .xy (cos θ) (sin θ))).IsUnit c s) :
+    projectPose .xy ⟨rotAbout .xy (cos θ) (sin θ), ⟨x, y, 0⟩⟩ c s = ⟨rotAbout .xy (cos θ) (sin θ), ⟨x, y, 0⟩⟩ ∧
+    (θ ∈ Set.Ioc (-π) π → atan2 s c = θ) := by
+  have h0 : cos θ * cos θ + sin θ * sin θ = 1 := by nlinarith [Real.sin_sq_add_cos_sq θ]
+  have hd : dirOf epsSq .xy (rotAbout .xy (cos θ) (sin θ)) = ⟨cos θ * cos θ, decide (cos θ < 0), sin θ, false⟩ := by
+    simp [dirOf, rotAbout, h0, heps]
+    rw [Bool.eq_iff_iff]; simp only [decide_eq_true_eq]; exact decide_eq_true_iff
+  refine ⟨project_xy_fixes_planar epsSq _ _ x y c s heps h0 h, ?_⟩
+  rw [hd] at h
+  obtain ⟨rfl, rfl⟩ := dir_unit_unique _ (mul_self_nonneg _) h (isUnit_of_circle _ _ false h0)
+  exact atan2_cos_sin θ
+
+/-- **YZ, all headings** -/
+theorem project_yz_fixes_planar_real (epsSq θ y z c s : ℝ) (heps : epsSq < 1)
+    (h : (dirOf epsSq .yz (rotAbout .yz (cos θ) (sin θ))).IsUnit c s) :
+    projectPose .yz ⟨rotAbout .yz (cos θ) (sin θ), ⟨0, y, z⟩⟩ c s = ⟨rotAbout .yz (cos θ) (sin θ), ⟨0, y, z⟩⟩ := by
+  have h0 : cos θ * cos θ + sin θ * sin θ = 1 := by nlinarith [Real.sin_sq_add_cos_sq θ]
+  exact project_yz_fixes_planar epsSq _ _ y z c s heps h0 h
+
+/-- **XZ, partial**: headings with `|θ| ≤ π/2` are fixed -/
+theorem project_xz_fixes_planar_real_partial (epsSq θ x z c s : ℝ) (hθ : |θ| ≤ π / 2)
+    (h : (dirOf epsSq .xz (rotAbout .xz (cos θ) (sin θ))).IsUnit c s) :
+    projectPose .xz ⟨rotAbout .xz (cos θ) (sin θ), ⟨x, 0, z⟩⟩ c s = ⟨rotAbout .xz (cos θ) (sin θ), ⟨x, 0, z⟩⟩ := by
+  have h0 : cos θ * cos θ + sin θ * sin θ = 1 := by nlinarith [Real.sin_sq_add_cos_sq θ]
+  have hc : 0 ≤ cos θ := by
+    obtain ⟨h1, h2⟩ := abs_le.mp hθ
+    exact Real.cos_nonneg_of_neg_pi_div_two_le_of_le h1 h2
+  exact project_xz_fixes_planar_partial epsSq _ _ x z c s h0 hc h
+
+/-- **F1 over ℝ**: a planar XZ pose with heading `θ ∈ (π/2, π]` comes back with heading `π − θ`
+(mirrored at the z axis), e.g. `2π/3 ↦ π/3` -/
+theorem project_xz_mirrors_beyond_90_real (epsSq θ c s : ℝ) (h1 : π / 2 < θ) (h2 : θ ≤ π)
+    (h : (dirOf epsSq .xz (rotAbout .xz (cos θ) (sin θ))).IsUnit c s) :
+    atan2 s c = π - θ ∧ π - θ ≠ θ := by
+  have h0 : cos θ * cos θ + sin θ * sin θ = 1 := by nlinarith [Real.sin_sq_add_cos_sq θ]
+  have hneg : cos θ < 0 := Real.cos_neg_of_pi_div_two_lt_of_lt h1 (by linarith [Real.pi_pos])
+  obtain ⟨rfl, rfl⟩ := project_xz_planar_heading epsSq _ _ c s h0 h
+  rw [abs_of_neg hneg, ← Real.cos_pi_sub, ← Real.sin_pi_sub]
+  refine ⟨atan2_cos_sin (π - θ) ⟨by linarith [Real.pi_pos], by linarith [Real.pi_pos]⟩, ?_⟩
+  intro e; linarith
+
+/-- the instance quoted in the finding: heading 120° comes back as 60° -/
+theorem project_xz_counterexample_real (epsSq c s : ℝ)
+    (h : (dirOf epsSq .xz (rotAbout .xz (cos (2 * π / 3)) (sin (2 * π / 3)))).IsUnit c s) :
+    atan2 s c = π / 3 := by
+  have := (project_xz_mirrors_beyond_90_real epsSq (2 * π / 3) c s (by linarith [Real.pi_pos])
+    (by linarith [Real.pi_pos]) h).1
+  rw [this]; ring
+
+end real
+
 /-! ### finding F1, kernel-checked on a rational planar pose -/
 
 /-- the pose at `(1, 0, 3)` in the XZ plane with heading `cos = −3/5`, `sin = 4/5` (≈ 126.87°) -/
